@@ -3,6 +3,8 @@ package platlat
 import (
 	"log"
 
+	"verif/mc/cuworld"
+
 	"github.com/sarchlab/mgpusim/v4/amd/driver"
 )
 
@@ -68,6 +70,75 @@ func (b *reupload) Verify() {
 	for i := range b.out {
 		if b.out[i] != b.want[i] {
 			log.Panicf("Mismatch at %d, expected %d (the last upload), but get %d", i, b.want[i], b.out[i])
+		}
+	}
+}
+
+// scalarReupload: like reupload, but the kernel reads its input through SCALAR loads (s_load_dword of in[1] and
+// in[2]; kernel k5 of the CU world: out[gid] = in[1] + in[2] + local id) and the host overwrites the input between
+// two launches. What the first launch left in a scalar (or instruction) cache must not survive the host's upload.
+type scalarReupload struct {
+	driver  *driver.Driver
+	context *driver.Context
+	gpus    []int
+	Items   int
+	Rounds  int
+	useUM   bool
+
+	out  []uint32
+	want []uint32
+}
+
+type scalarReuploadArgs struct {
+	In, Out        driver.Ptr
+	Mask, Pad      uint32
+	Tmp, In2, Out2 driver.Ptr
+}
+
+func newScalarReupload(d *driver.Driver, p map[string]int) *scalarReupload {
+	b := &scalarReupload{driver: d, Items: def(p, "items", 4096), Rounds: def(p, "rounds", 2)}
+	b.context = d.Init()
+	return b
+}
+
+func (b *scalarReupload) SelectGPU(gpus []int) { b.gpus = gpus }
+func (b *scalarReupload) SetUnifiedMemory()    { b.useUM = true }
+
+func (b *scalarReupload) alloc(gpu int, n uint64) driver.Ptr {
+	b.driver.SelectGPU(b.context, gpu)
+	if b.useUM {
+		return b.driver.AllocateUnifiedMemory(b.context, n)
+	}
+	return b.driver.AllocateMemory(b.context, n)
+}
+
+func (b *scalarReupload) Run() {
+	owner, worker := b.gpus[0], b.gpus[len(b.gpus)-1]
+	in := b.alloc(owner, 4096)
+	out := b.alloc(worker, uint64(4*b.Items))
+	co := cuworld.DriverCodeObject(cuworld.LoadKernels("")["k5_waitcnt_lgkm"], 64)
+	b.want = make([]uint32, b.Items)
+	for r := 0; r < b.Rounds; r++ {
+		data := make([]uint32, 1024)
+		for i := range data {
+			data[i] = uint32(100000*(r+1) + 7*i)
+		}
+		b.driver.MemCopyH2D(b.context, in, data)
+		b.driver.SelectGPU(b.context, worker)
+		b.driver.LaunchKernel(b.context, co, [3]uint32{uint32(b.Items), 1, 1}, [3]uint16{64, 1, 1},
+			&scalarReuploadArgs{In: in, Out: out, Mask: 63})
+		for i := range b.want {
+			b.want[i] = data[1] + data[2] + uint32(i%64)
+		}
+	}
+	b.out = make([]uint32, b.Items)
+	b.driver.MemCopyD2H(b.context, b.out, out)
+}
+
+func (b *scalarReupload) Verify() {
+	for i := range b.out {
+		if b.out[i] != b.want[i] {
+			log.Panicf("Mismatch at %d, expected %d (from the last upload), but get %d", i, b.want[i], b.out[i])
 		}
 	}
 }
